@@ -15,6 +15,7 @@ mod c13;
 mod c14;
 mod c15;
 mod c16;
+mod c17;
 mod c18;
 
 use simcore::report::{install_quiet_panic_hook, Tier};
@@ -54,6 +55,7 @@ fn main() {
             "C07" => c07::replay(r),
             "C08" => c08::replay(r),
             "C16" => c16::replay(r),
+            "C17" => c17::replay(r),
             "C18" => c18::replay(r),
             _ => {
                 eprintln!("no replay for {id}");
@@ -78,6 +80,7 @@ fn main() {
         "C07" => c07::run(tier),
         "C08" => c08::run(tier),
         "C16" => c16::run(tier),
+        "C17" => c17::run(tier),
         "C18" => c18::run(tier),
         _ => {
             eprintln!("unknown check {id}");
